@@ -432,6 +432,23 @@ func runCluster(c tcase) (res result) {
 				}
 			}
 			_, err := wp.dist.Write(fr)
+			if err == nil {
+				// Write does not wait for an acknowledgement (Sync=false): a frame the
+				// validator rejects is reported by the next call. Ask right away.
+				inWriter := map[uint32]bool{}
+				for _, k := range wp.keys {
+					inWriter[k] = true
+				}
+				for _, cc := range o.Cols {
+					if k, ok := res.Keys[cc.Name]; !ok || !inWriter[k] {
+						_, err = wp.dist.Commit()
+						if err == nil {
+							err = fmt.Errorf("frame with a key outside the writer was accepted")
+						}
+						break
+					}
+				}
+			}
 			out.Err = classify(err)
 			if err != nil {
 				out.Text = err.Error()
